@@ -32,6 +32,11 @@ CLAIMED = {
             "Seeded search with cancellations/timeouts aimed at connection creation and hand-over windows plus connection deaths; after the fault phase a probe of `max` simultaneous callers must rendezvous inside Invoke within a simulated hour, otherwise capacity was lost; leaked connections are classified black-box (never used / idle after use).",
             "Trusted: as C27; the probe is black-box (no pool internals read).",
             "DESIGN.md §6 C28"),
+    "C42": ("dial", "exploration",
+            "deterministic simulation of the real dcs.Plain dial race over a scripted simulated dialer; quiescence oracle on established connections",
+            "Seeded search over per-address dial outcomes (success, failure, hang, success after cancellation, reset before handshake), latencies, caller cancellation/deadline and goroutine interleavings; at quiescence exactly the returned connection is open (or none on error), and an all-fail error combines every cause.",
+            "Trusted: instrumenter rewrite; the scripted DialFunc and simulated net.Conn; quiescence = 5 simulated seconds after the resolver returned.",
+            "DESIGN.md §6 C42"),
 }
 
 PURE = {
